@@ -34,173 +34,59 @@ Section CpolInd.
 End CpolInd.
 
 (* ------------------------------------------------------------------ what lift computes *)
-Lemma lift_list_ok f l ss : lift_list f l = inr ss -> Forall2 (fun c s => f c = LOk s) l ss.
-Proof.
-  revert ss. induction l as [|c r IH]; intros ss E; simpl in E.
-  - inversion E. constructor.
-  - destruct (f c) as [s|] eqn:Ec; try discriminate.
-    destruct (lift_list f r) as [e|ss'] eqn:Er; [discriminate|].
-    inversion E; subst. constructor; [exact Ec|apply IH; reflexivity].
-Qed.
-Lemma lift_list_err f l e : lift_list f l = inl e -> exists c, In c l /\ f c = e /\ e = LErrTimelock.
-Proof.
-  induction l as [|c r IH]; intro E; simpl in E; [discriminate|].
-  destruct (f c) as [s|] eqn:Ec.
-  - destruct (lift_list f r) as [e'|ss'] eqn:Er; [|discriminate].
-    inversion E; subst. destruct (IH eq_refl) as (c' & Hc' & Ef & Hn).
-    exists c'. split; [right; exact Hc'|split; assumption].
-  - inversion E; subst. exists c. split; [left; reflexivity|split; [exact Ec|reflexivity]].
-Qed.
-Lemma lift_list_all_ok f l :
-  (forall c, In c l -> f c <> LErrTimelock) -> exists ss, lift_list f l = inr ss.
-Proof.
-  intro H. destruct (lift_list f l) as [e|ss] eqn:E; [|exists ss; reflexivity].
-  destruct (lift_list_err _ _ _ E) as (c & Hc & Ef & He). rewrite He in Ef. exfalso. exact (H c Hc Ef).
-Qed.
-
-Lemma Forall2_len {A B} (R : A -> B -> Prop) l l' : Forall2 R l l' -> length l = length l'.
-Proof. induction 1; simpl; congruence. Qed.
-
-Lemma lift_unfold p :
-  lift p =
-  if comb (timelock_info p) then LErrTimelock
-  else match p with
-       | CUnsat => LOk SUnsat | CTriv => LOk STriv | CKey k => LOk (SKey k)
-       | CAfter t => LOk (SAfter t) | COlder t => LOk (SOlder t)
-       | CSha256 h => LOk (SSha256 h) | CHash256 h => LOk (SHash256 h)
-       | CRipemd160 h => LOk (SRipemd160 h) | CHash160 h => LOk (SHash160 h)
-       | CAnd subs =>
-           match lift_list lift subs with
-           | inl e => e
-           | inr ss => if (1 <=? length ss) then LOk (normalized (SThresh (length ss) ss)) else LOk STriv
-           end
-       | COr subs =>
-           match lift_list lift subs with
-           | inl e => e
-           | inr ss => if (1 <=? length ss) then LOk (normalized (SThresh 1 ss)) else LOk SUnsat
-           end
-       | CThresh k subs =>
-           match lift_list lift subs with
-           | inl e => e
-           | inr ss => LOk (normalized (SThresh k ss))
-           end
-       end.
+Lemma lift_unchecked_unfold p :
+  lift_unchecked p =
+  normalized
+    match p with
+    | CUnsat => SUnsat | CTriv => STriv | CKey k => SKey k | CAfter t => SAfter t | COlder t => SOlder t
+    | CSha256 h => SSha256 h | CHash256 h => SHash256 h | CRipemd160 h => SRipemd160 h
+    | CHash160 h => SHash160 h
+    | CAnd subs =>
+        if (1 <=? length (map lift_unchecked subs))
+        then SThresh (length (map lift_unchecked subs)) (map lift_unchecked subs) else STriv
+    | COr subs =>
+        if (1 <=? length (map lift_unchecked subs)) then SThresh 1 (map lift_unchecked subs) else SUnsat
+    | CThresh k subs => SThresh k (map lift_unchecked subs)
+    end.
 Proof. destruct p; reflexivity. Qed.
 
-Lemma lifted_children_eval rho subs ss :
-  Forall (fun c => forall s, lift c = LOk s -> evalA rho s = evalC rho c) subs ->
-  Forall2 (fun c s => lift c = LOk s) subs ss ->
-  map (evalA rho) ss = map (evalC rho) subs.
+Lemma lift_unchecked_eval rho : forall p, evalA rho (lift_unchecked p) = evalC rho p.
 Proof.
-  intros HF H2. induction H2 as [|c s r rs Hcs Hr IH]; [reflexivity|].
-  inversion HF; subst. cbn [map]. f_equal; [apply H1; exact Hcs|apply IH; assumption].
+  induction p using cpol_ind'; rewrite lift_unchecked_unfold, normalized_eval; try reflexivity.
+  - rewrite map_length. destruct (Nat.leb_spec 1 (length subs)).
+    + cbn [evalA evalC]. rewrite map_map, forallb_count. f_equal. f_equal.
+      apply map_ext_Forall. exact H.
+    + destruct subs; [reflexivity|simpl in *; lia].
+  - rewrite map_length. destruct (Nat.leb_spec 1 (length subs)).
+    + cbn [evalA evalC]. rewrite map_map, existsb_count. f_equal. f_equal.
+      apply map_ext_Forall. exact H.
+    + destruct subs; [reflexivity|simpl in *; lia].
+  - cbn [evalA evalC]. rewrite map_map. f_equal. f_equal. apply map_ext_Forall. exact H.
 Qed.
+
+Lemma lift_unchecked_normal p : is_normal (lift_unchecked p) = true.
+Proof. rewrite lift_unchecked_unfold. apply normalized_normal. Qed.
 
 (* concrete policies lift to equivalent abstract ones: every policy, every arity of And / Or
    (0 and 1 included), every assignment *)
-Theorem concrete_lift rho : forall p s, lift p = LOk s -> evalA rho s = evalC rho p.
+Theorem concrete_lift rho p s : lift p = LOk s -> evalA rho s = evalC rho p.
 Proof.
-  induction p using cpol_ind'; intros s E; rewrite lift_unfold in E;
-    destruct (comb (timelock_info _)); try discriminate;
-    try (inversion E; subst; reflexivity).
-  - destruct (lift_list lift subs) as [e|ss] eqn:El.
-    + destruct (lift_list_err _ _ _ El) as (c & _ & _ & Hn). subst e. discriminate.
-    + pose proof (lift_list_ok _ _ _ El) as F2. pose proof (Forall2_len _ _ _ F2) as Hlen.
-      destruct (Nat.leb_spec 1 (length ss)); injection E as <-.
-      * change (norm_node (length ss) (map normalized ss)) with (normalized (SThresh (length ss) ss)).
-        rewrite normalized_eval. cbn [evalA evalC].
-        rewrite (lifted_children_eval rho subs ss H F2), forallb_count, Hlen. reflexivity.
-      * destruct ss; [|simpl in *; lia]. destruct subs; [reflexivity|discriminate].
-  - destruct (lift_list lift subs) as [e|ss] eqn:El.
-    + destruct (lift_list_err _ _ _ El) as (c & _ & _ & Hn). subst e. discriminate.
-    + pose proof (lift_list_ok _ _ _ El) as F2. pose proof (Forall2_len _ _ _ F2) as Hlen.
-      destruct (Nat.leb_spec 1 (length ss)); injection E as <-.
-      * change (norm_node 1 (map normalized ss)) with (normalized (SThresh 1 ss)).
-        rewrite normalized_eval. cbn [evalA evalC].
-        rewrite (lifted_children_eval rho subs ss H F2), existsb_count. reflexivity.
-      * destruct ss; [|simpl in *; lia]. destruct subs; [reflexivity|discriminate].
-  - destruct (lift_list lift subs) as [e|ss] eqn:El.
-    + destruct (lift_list_err _ _ _ El) as (c & _ & _ & Hn). subst e. discriminate.
-    + injection E as <-.
-      change (norm_node k (map normalized ss)) with (normalized (SThresh k ss)).
-      rewrite normalized_eval. cbn [evalA evalC].
-      rewrite (lifted_children_eval rho subs ss H (lift_list_ok _ _ _ El)). reflexivity.
+  unfold lift. destruct (comb (timelock_info p)); [discriminate|].
+  intro E. injection E as <-. apply lift_unchecked_eval.
+Qed.
+Lemma lift_normal p s : lift p = LOk s -> is_normal s = true.
+Proof.
+  unfold lift. destruct (comb (timelock_info p)); [discriminate|].
+  intro E. injection E as <-. apply lift_unchecked_normal.
 Qed.
 
-(* the lifted policy is normalized *)
-Lemma lift_normal : forall p s, lift p = LOk s -> is_normal s = true.
+(* lift refuses exactly what check_timelocks refuses, and lifts everything else *)
+Theorem lift_refusal_exact p :
+  (lift p = LErrTimelock <-> check_timelocks p = false) /\
+  (check_timelocks p = true -> lift p = LOk (lift_unchecked p)).
 Proof.
-  intros p s E. rewrite lift_unfold in E. destruct (comb (timelock_info p)); [discriminate|].
-  destruct p; try (inversion E; subst; reflexivity);
-    destruct (lift_list lift subs) as [e|ss] eqn:El;
-    try (destruct (lift_list_err _ _ _ El) as (c & _ & _ & Hn); subst e; discriminate).
-  - destruct (1 <=? length ss); injection E as <-; [apply (normalized_normal (SThresh (length ss) ss))|reflexivity].
-  - destruct (1 <=? length ss); injection E as <-; [apply (normalized_normal (SThresh 1 ss))|reflexivity].
-  - injection E as <-. apply (normalized_normal (SThresh k ss)).
-Qed.
-
-(* when lift refuses: exactly when check_timelocks rejects SOME sub-policy (lift re-runs the
-   check at every level) *)
-Lemma any_sub_rejected_unfold p :
-  any_sub_rejected p =
-  negb (check_timelocks p) ||
-  match p with
-  | CAnd subs | COr subs | CThresh _ subs => existsb any_sub_rejected subs
-  | _ => false
-  end.
-Proof. destruct p; reflexivity. Qed.
-
-Theorem lift_refusal : forall p, lift p = LErrTimelock <-> any_sub_rejected p = true.
-Proof.
-  assert (Hnode : forall subs,
-            Forall (fun c => lift c = LErrTimelock <-> any_sub_rejected c = true) subs ->
-            ((exists e, lift_list lift subs = inl e) <-> existsb any_sub_rejected subs = true)).
-  { intros subs HF. rewrite Forall_forall in HF. split.
-    - intros (e & El). destruct (lift_list_err _ _ _ El) as (c & Hc & Ef & He). subst e.
-      apply existsb_exists. exists c. split; [exact Hc|apply (HF c Hc); exact He].
-    - intro Ex. apply existsb_exists in Ex. destruct Ex as (c & Hc & Rc).
-      destruct (lift_list lift subs) as [e|ss] eqn:El; [exists e; reflexivity|].
-      pose proof (lift_list_ok _ _ _ El) as F2. exfalso.
-      apply (HF c Hc) in Rc. clear - F2 Hc Rc.
-      induction F2 as [|c' s r rs Hcs Hr IH]; [contradiction|].
-      destruct Hc as [<-|Hc]; [congruence|apply IH; exact Hc]. }
-  induction p using cpol_ind'; rewrite lift_unfold, any_sub_rejected_unfold; unfold check_timelocks;
-    rewrite negb_involutive; destruct (comb (timelock_info _)) eqn:C; cbn [orb];
-    try (split; [reflexivity|reflexivity]); try (split; discriminate).
-  - rewrite <- (Hnode subs H). split.
-    + intro E. destruct (lift_list lift subs) as [e|ss]; [exists e; reflexivity|].
-      destruct (1 <=? length ss); discriminate.
-    + intros (e & El). rewrite El. destruct (lift_list_err _ _ _ El) as (_ & _ & _ & He). exact He.
-  - rewrite <- (Hnode subs H). split.
-    + intro E. destruct (lift_list lift subs) as [e|ss]; [exists e; reflexivity|].
-      destruct (1 <=? length ss); discriminate.
-    + intros (e & El). rewrite El. destruct (lift_list_err _ _ _ El) as (_ & _ & _ & He). exact He.
-  - rewrite <- (Hnode subs H). split.
-    + intro E. destruct (lift_list lift subs) as [e|ss]; [exists e; reflexivity|discriminate].
-    + intros (e & El). rewrite El. destruct (lift_list_err _ _ _ El) as (_ & _ & _ & He). exact He.
-Qed.
-
-(* outside the class [lift_refusal_defect] lift refuses exactly what check_timelocks refuses *)
-Theorem lift_err_iff p : lift_refusal_defect p = false ->
-  (lift p = LErrTimelock <-> check_timelocks p = false).
-Proof.
-  intro D. rewrite lift_refusal. unfold lift_refusal_defect in D.
-  rewrite any_sub_rejected_unfold in *. destruct (check_timelocks p); cbn [negb orb andb] in *.
-  - rewrite D. split; discriminate.
-  - split; reflexivity.
-Qed.
-
-(* full statement  forall p, lift p = LErrTimelock <-> check_timelocks p = false  is false on the
-   repaired code: an unsatisfiable branch that contains a mixing conjunction is ignored by
-   check_timelocks but still refused by the recursive check inside lift, even for a satisfiable
-   policy without any mixing path *)
-Theorem lift_refusal_exact_refuted :
-  exists p, cwf p = true /\ check_timelocks p = true /\ lift p = LErrTimelock /\
-            paths p <> [] /\ ~ has_mixed_path p.
-Proof.
-  exists (COr [CKey 0; CAnd [CAnd [CAfter 1; CAfter 500000001]; CUnsat]]).
-  repeat split; try reflexivity; try discriminate.
-  intros (pi & Hin & M). simpl in Hin. destruct Hin as [<-|[]]. discriminate.
+  unfold lift, check_timelocks. destruct (comb (timelock_info p)); cbn [negb]; split;
+    try (split; [reflexivity|reflexivity]); try (split; discriminate); try discriminate; reflexivity.
 Qed.
 
 (* ================================================================== mixed time locks *)
